@@ -150,7 +150,7 @@ def run(ctx, build):
     from nobodd.fs import FatFileSystem
     R = ctx.runner('Fat')
     rng = ctx.rng
-    nvol = 120 if ctx.thorough else 36
+    nvol = 400 if ctx.thorough else 36
     if ctx.widen:
         nvol *= 2
     for i in range(nvol):
